@@ -389,7 +389,10 @@ def o_close(case):
         else:
             ok = tight(v, bref[i], cond_tol(args[i]))   # scalar and array pow / erfc may round differently
             # the bit error rate of a value lies in the band the property states, around the implied SER
-            ok = ok and v <= sref[i] * (1 + cond_tol(args[i])) + extra and sref[i] <= k * v * (1 + cond_tol(args[i])) + extra
+            if bref[i] < 1e-290:     # Q underflows (arg > 37): only 'negligible' is comparable
+                ok = ok and 0.0 <= v < 1e-280
+            else:
+                ok = ok and v <= sref[i] * (1 + cond_tol(args[i])) + extra and sref[i] <= k * v * (1 + cond_tol(args[i])) + extra
         return not ok
 
     order = list(range(len(vals)))
@@ -546,6 +549,11 @@ def o_refill(case):
                 if isinstance(old, np.ndarray) and np.shares_memory(r, old):
                     return 'R16:result-aliases-earlier-result:%s:%s' % (st['call'], cls), 'calls %d and %d' % (j, k)
         kept.append((r, np.array(ra, copy=True)))
+        # an equal-content but different array object gives the same values again
+        r2 = np.asarray(CALLS[st['call']](m, np.array(contents, copy=True), L), dtype=float)
+        if r2.shape != ra.shape or not np.allclose(r2, ra, rtol=1e-12, atol=0.0):
+            return 'R16:equal-contents-different-object:%s:%s' % (st['call'], cls), \
+                'call %d repeated with a copy of the argument: %r, then %r' % (k, ra.tolist(), r2.tolist())
         # the caller reuses the argument at once
         if st.get('arg', 'buffer') == 'temp':
             del x
@@ -870,7 +878,7 @@ def gen_close(ctx, quick):
     """one case per (modulator, base value): the base and its close-but-distinct neighbours, in shuffled order"""
     out = []
     for kind, M in mods(*R_MODS):
-        bases = BASES + [0.1 + 0.2] + [ctx.rng.uniform(-29, 59) for _ in range(2 if quick else 12)]
+        bases = BASES + [0.1 + 0.2] + [ctx.rng.uniform(-29, 59) for _ in range(4 if quick else 40)]
         for b in bases:
             vals = close_cluster(b)
             ctx.rng.shuffle(vals)
@@ -917,7 +925,7 @@ def gen_refill(ctx, quick):
     out = []
     for kind, M in mods(*R_MODS):
         todo = list(plans)
-        for _ in range(0 if quick else 12):
+        for _ in range(3 if quick else 40):
             dt = ctx.rng.choice(['float64', 'float64', 'int64', 'float32'])
             shape = ctx.rng.choice([[], [1], [3], [7], [2, 2], [3, 1, 2]])
             todo.append((dt, shape, ctx.rng.choice(['own', 'view']), ctx.rng.choice([1, 2]),
@@ -1017,11 +1025,11 @@ def check(ctx):
     ctx.rule = ('modulators BPSK, QPSK, PSK 2..2^10, QAM 4..4^k; SNR grid over [-30,60] dB plus seeded points, '
                 'scalar and array paths; packet lengths 1..10^4; non-trivial = distinct (formula, modulator, M, SNR index). '
                 'R15: per modulator, clusters of close-but-distinct SNR values (adjacent doubles, +-1e-12..1e-8, relative '
-                '1e-6..1e-5, tiny magnitudes around 0 dB) at 10+ base points, as scalars in sequence on one object and in '
+                '1e-6..1e-5, tiny magnitudes around 0 dB) at 14 (thorough 50) base points, as scalars in sequence on one object and in '
                 'one array; close packet lengths (L, L+1 at 10^3 and 10^6); close arguments of qfunc / dB2Linear; each '
                 'compared with the first-principles value for THAT value to 16 eps (4+arg^2) relative (the conditioning '
                 'of Q), pairs further apart than 4 tolerances counted as told apart. R16: per modulator 7 deterministic '
-                '(+ seeded) histories of 2..4 calls (SER/BER/PER/SE) on ONE argument array refilled in place / on '
+                '+ 3 (thorough 40) seeded histories of 2..4 calls (SER/BER/PER/SE) on ONE argument array refilled in place / on '
                 'dropped temporaries, float64/int64/float32, 0-d..3-d, own or strided, one or two modulators; one '
                 'array as SNR and packet length; the same for qfunc / dB2Linear')
     psk_max, qam_max = (1 << 10, 4 ** 5) if quick else (1 << 12, 4 ** 6)
